@@ -7,8 +7,9 @@ pipeline can fail under it.
 namespace PEval.Dataset
 open PEval
 
-/-- Referential integrity of a table set: every token that the loader follows resolves, and every
-sample has a lidar key frame (`LIDAR_TOP` or `LIDAR_CONCAT`). -/
+/-- Referential integrity of a table set: every token that the loader follows resolves, every
+sample has a lidar key frame (`LIDAR_TOP` or `LIDAR_CONCAT`), and every calibrated sensor's channel
+is a `FrameID` value (`sensors`). -/
 structure WellFormed (T : Tables) : Prop where
   samples_ne : T.samples ≠ []
   lidar : ∀ s ∈ T.samples, ∃ sd, lidarOf T s.token = .ok sd
@@ -20,6 +21,8 @@ structure WellFormed (T : Tables) : Prop where
   ann_attributes : ∀ a ∈ T.annotations, ∀ t ∈ a.attributeTokens, ∃ x, lookup Named.token T.attributes t = .ok x
   ann_visibility : T.visibility ≠ [] → ∀ a ∈ T.annotations, ∃ v, lookup Named.token T.visibility a.visibilityToken = .ok v
   ann_prev : ∀ a ∈ T.annotations, a.prev ≠ "" → ∃ b, lookup Annotation.token T.annotations a.prev = .ok b
+  ann_next : ∀ a ∈ T.annotations, a.next ≠ "" → ∃ b, lookup Annotation.token T.annotations a.next = .ok b
+  sensors : ∃ frs, sensorFrames T = .ok frs
 
 theorem dataOf_mem {T : Tables} {tok ch : String} {sd : SampleData} (h : dataOf T tok ch = some sd) :
     sd ∈ T.sampleData := by
@@ -46,20 +49,104 @@ theorem timeOf_ok {T : Tables} {tok : String} {s : Sample}
     (h : lookup Sample.token T.samples tok = .ok s) : timeOf T tok = .ok s.timestamp := by
   simp [timeOf, h, Except.map]
 
+theorem secsOf_ok {T : Tables} {tok : String} {s : Sample}
+    (h : lookup Sample.token T.samples tok = .ok s) : secsOf T tok = .ok s.secs := by
+  simp [secsOf, h, Except.map]
+
+theorem startOf_ok {T : Tables} {a : Annotation} (ha : a ∈ T.annotations) :
+    ∃ st, startOf T a = .ok st ∧ st ∈ T.annotations ∧ st.sampleToken = a.sampleToken ∧
+      st.instanceToken = a.instanceToken := by
+  unfold startOf
+  cases hf : T.annotations.reverse.find?
+      (fun b => b.sampleToken == a.sampleToken && b.instanceToken == a.instanceToken) with
+  | some st =>
+    have hm : st ∈ T.annotations := by simpa using List.mem_of_find?_eq_some hf
+    have hp := List.find?_some hf
+    simp only [Bool.and_eq_true, beq_iff_eq] at hp
+    exact ⟨st, rfl, hm, hp.1, hp.2⟩
+  | none =>
+    have := List.find?_eq_none.1 hf a (by simpa using ha)
+    simp at this
+
+theorem startOf_inv {T : Tables} {a st : Annotation} (h : startOf T a = .ok st) :
+    st ∈ T.annotations ∧ st.sampleToken = a.sampleToken ∧ st.instanceToken = a.instanceToken := by
+  unfold startOf at h
+  split at h
+  · rename_i b hf
+    cases h
+    have hm : st ∈ T.annotations := by simpa using List.mem_of_find?_eq_some hf
+    have hp := List.find?_some hf
+    simp only [Bool.and_eq_true, beq_iff_eq] at hp
+    exact ⟨hm, hp.1, hp.2⟩
+  · cases h
+
+/-- when the sample holds no second annotation of the instance, the walk starts at the annotation itself -/
+theorem startOf_self {T : Tables} {a : Annotation} (ha : a ∈ T.annotations)
+    (huniq : ∀ b ∈ T.annotations, b.sampleToken = a.sampleToken → b.instanceToken = a.instanceToken → b = a) :
+    startOf T a = .ok a := by
+  obtain ⟨st, hst, hm, h1, h2⟩ := startOf_ok ha
+  rw [hst, huniq st hm h1 h2]
+
+/-- inversion of `pastRecords`: the start record (same sample and instance), the sample's time, the walk -/
+theorem pastRecords_inv {T : Tables} {a : Annotation} {recs : List Annotation} (h : pastRecords T a = .ok recs) :
+    ∃ st t0, startOf T a = .ok st ∧ st ∈ T.annotations ∧ st.instanceToken = a.instanceToken ∧
+      timeOf T a.sampleToken = .ok t0 ∧ iterate T t0 T.annotations.length st 0 [] = .ok recs := by
+  unfold pastRecords at h
+  split at h
+  · cases h
+  · rename_i st hst
+    obtain ⟨hm, hs, hi⟩ := startOf_inv hst
+    split at h
+    · cases h
+    · rename_i t0 ht0
+      exact ⟨st, t0, hst, hm, hi, hs ▸ ht0, h⟩
+
 theorem pastRecords_ok {T : Tables} (wf : WellFormed T) {a : Annotation} (ha : a ∈ T.annotations) :
-    ∃ recs, pastRecords T a = .ok recs := by
+    ∃ recs, pastRecords T a = .ok recs ∧ ∀ r ∈ recs, r ∈ T.annotations := by
   unfold pastRecords
-  obtain ⟨s, hs⟩ := wf.ann_sample a ha
-  simp only [timeOf_ok hs]
-  refine iterate_ok (fun c => c ∈ T.annotations) ?_ _ a 0 [] ha
-  intro cur hcur hne
-  obtain ⟨b, hb⟩ := wf.ann_prev cur hcur hne
-  have hbm := (lookup_ok_mem hb).1
-  obtain ⟨s', hs'⟩ := wf.ann_sample b hbm
-  exact ⟨b, s'.timestamp, hb, timeOf_ok hs', hbm⟩
+  obtain ⟨st, hst, hm, _, _⟩ := startOf_ok ha
+  obtain ⟨s, hs⟩ := wf.ann_sample st hm
+  simp only [hst, timeOf_ok hs]
+  obtain ⟨recs, hr⟩ := iterate_ok (T := T) (start := s.timestamp) (fun c => c ∈ T.annotations) (by
+    intro cur hcur hne
+    obtain ⟨b, hb⟩ := wf.ann_prev cur hcur hne
+    have hbm := (lookup_ok_mem hb).1
+    obtain ⟨s', hs'⟩ := wf.ann_sample b hbm
+    exact ⟨b, s'.timestamp, hb, timeOf_ok hs', hbm⟩) T.annotations.length st 0 [] hm
+  refine ⟨recs, hr, ?_⟩
+  exact iterate_inv (fun r => r ∈ T.annotations) (fun r => r ∈ T.annotations)
+    (fun cur nxt t _ hn _ => ⟨(lookup_ok_mem hn).1, fun _ => (lookup_ok_mem hn).1⟩) _ st 0 [] recs hm
+    (fun r hr => by cases hr) hr
+
+theorem velocityOf_ok {T : Tables} (wf : WellFormed T) (fr : Bool) {a : Annotation} (ha : a ∈ T.annotations) :
+    ∃ v, velocityOf T fr a = .ok v := by
+  unfold velocityOf
+  split
+  · exact ⟨none, rfl⟩
+  · have h1 : ∃ first, (if a.prev == "" then Except.ok a else lookup Annotation.token T.annotations a.prev)
+        = .ok first ∧ first ∈ T.annotations := by
+      split
+      · exact ⟨a, rfl, ha⟩
+      · rename_i hne
+        obtain ⟨b, hb⟩ := wf.ann_prev a ha (by simpa using hne)
+        exact ⟨b, hb, (lookup_ok_mem hb).1⟩
+    have h2 : ∃ last, (if a.next == "" then Except.ok a else lookup Annotation.token T.annotations a.next)
+        = .ok last ∧ last ∈ T.annotations := by
+      split
+      · exact ⟨a, rfl, ha⟩
+      · rename_i hne
+        obtain ⟨b, hb⟩ := wf.ann_next a ha (by simpa using hne)
+        exact ⟨b, hb, (lookup_ok_mem hb).1⟩
+    obtain ⟨first, hf, hfm⟩ := h1
+    obtain ⟨last, hl, hlm⟩ := h2
+    obtain ⟨sf, hsf⟩ := wf.ann_sample first hfm
+    obtain ⟨sl, hsl⟩ := wf.ann_sample last hlm
+    simp only [hf, hl, secsOf_ok hsf, secsOf_ok hsl]
+    exact ⟨_, rfl⟩
 
 theorem objectOf_total {T : Tables} (wf : WellFormed T) {cfg : Config}
-    (hfr : cfg.frame = "BASE_LINK" ∨ cfg.frame = "MAP") (time : Nat) (ego : EgoPose) (cs : CalibratedSensor)
+    (hfr : cfg.frame = "BASE_LINK" ∨ cfg.frame = "MAP") (hfp : cfg.fpValidation = false)
+    (time : Nat) (ego : EgoPose) (cs : CalibratedSensor)
     {a : Annotation} (ha : a ∈ T.annotations) : ∃ o, objectOf T cfg time ego cs a = .ok o := by
   have h1 : ∃ p, boxPose cfg.frame ego cs a = .ok p := by
     unfold boxPose
@@ -73,7 +160,7 @@ theorem objectOf_total {T : Tables} (wf : WellFormed T) {cfg : Config}
       obtain ⟨v, hv⟩ := wf.ann_visibility hne' a ha
       simp [hv, Except.map]
   have h3 : ∃ l, attributeNamesOf T a = .ok l := by
-    unfold attributeNamesOf
+    unfold attributeNamesOf attributeNamesOfTokens
     apply mapE_ok_of_forall
     intro t ht
     obtain ⟨x, hx⟩ := wf.ann_attributes a ha t ht
@@ -86,34 +173,40 @@ theorem objectOf_total {T : Tables} (wf : WellFormed T) {cfg : Config}
   have h5 : ∃ t, trackedOf T cfg a = .ok t := by
     unfold trackedOf
     split
-    · obtain ⟨recs, hr⟩ := pastRecords_ok wf ha
-      simp [hr, Except.map]
+    · obtain ⟨recs, hr, hmem⟩ := pastRecords_ok wf ha
+      obtain ⟨sts, hsts⟩ := mapE_ok_of_forall (f := pastStateOf T) (l := recs) (by
+        intro r hr'
+        obtain ⟨v, hv⟩ := velocityOf_ok wf false (hmem r hr')
+        exact ⟨⟨annPose r, r.size, v⟩, by simp [pastStateOf, hv, Except.map]⟩)
+      simp [hr, hsts, Except.map]
     · exact ⟨none, rfl⟩
   obtain ⟨p, hp⟩ := h1
   obtain ⟨v, hv⟩ := h2
   obtain ⟨l, hl⟩ := h3
   obtain ⟨n, hn⟩ := h4
   obtain ⟨t, ht⟩ := h5
-  simp [objectOf, hp, hv, hl, hn, ht, bind, Except.bind, pure, Except.pure]
+  obtain ⟨vel, hvel⟩ := velocityOf_ok wf true ha
+  simp [objectOf, hp, hv, hl, hn, ht, hvel, fpCheck, hfp, bind, Except.bind, pure, Except.pure]
 
 theorem sampleToFrame_total {T : Tables} (wf : WellFormed T) {cfg : Config}
-    (hfr : cfg.frame = "BASE_LINK" ∨ cfg.frame = "MAP") (n : Nat) {s : Sample} (hs : s ∈ T.samples) :
+    (hfr : cfg.frame = "BASE_LINK" ∨ cfg.frame = "MAP") (hfp : cfg.fpValidation = false) (n : Nat) {s : Sample} (hs : s ∈ T.samples) :
     ∃ f, sampleToFrame T cfg n s = .ok f := by
   obtain ⟨sd, hsd⟩ := wf.lidar s hs
   have hm := lidarOf_mem hsd
   obtain ⟨e, he⟩ := wf.ego sd hm
   obtain ⟨c, hc⟩ := wf.calib sd hm
   obtain ⟨objs, ho⟩ := mapE_ok_of_forall (f := objectOf T cfg s.timestamp e c) (l := annsOf T s.token)
-    (fun a ha => objectOf_total wf hfr _ e c (annsOf_mem ha).1)
-  simp [sampleToFrame, hsd, hfr, he, hc, ho, bind, Except.bind, pure, Except.pure]
+    (fun a ha => objectOf_total wf hfr hfp _ e c (annsOf_mem ha).1)
+  obtain ⟨frs, hfrs⟩ := wf.sensors
+  simp [sampleToFrame, hsd, hfr, he, hc, hfrs, ho, bind, Except.bind, pure, Except.pure]
 
 theorem loadFrom_total {T : Tables} (wf : WellFormed T) {cfg : Config}
-    (hfr : cfg.frame = "BASE_LINK" ∨ cfg.frame = "MAP") :
+    (hfr : cfg.frame = "BASE_LINK" ∨ cfg.frame = "MAP") (hfp : cfg.fpValidation = false) :
     ∀ (l : List Sample) (n : Nat), (∀ s ∈ l, s ∈ T.samples) → ∃ fs, loadFrom T cfg n l = .ok fs
   | [], n, _ => ⟨[], rfl⟩
   | s :: rest, n, h => by
-    obtain ⟨f, hf⟩ := sampleToFrame_total wf hfr n (h s List.mem_cons_self)
-    obtain ⟨fs, hfs⟩ := loadFrom_total wf hfr rest (n + 1) (fun x hx => h x (List.mem_cons_of_mem _ hx))
+    obtain ⟨f, hf⟩ := sampleToFrame_total wf hfr hfp n (h s List.mem_cons_self)
+    obtain ⟨fs, hfs⟩ := loadFrom_total wf hfr hfp rest (n + 1) (fun x hx => h x (List.mem_cons_of_mem _ hx))
     exact ⟨f :: fs, by simp [loadFrom, hf, hfs]⟩
 
 end PEval.Dataset
